@@ -206,7 +206,13 @@ def build_gate(g):
         if "basis" in k2:
             k2["basis"] = getattr(gates, k2["basis"])
         return gates.M(*qs, **k2)
+    if "theta" in kw:        # parametrised named gates (CRX, CRY, CRZ, CU1, RXX ...): operator compared to 1e-9
+        return getattr(gates, kind)(*qs, kw["theta"])
     return getattr(gates, kind)(*qs)
+
+
+def is_approx(spec):
+    return any("theta" in g[2] for g in spec["gates"])
 
 
 def _new_circuit(n, attr):
@@ -292,15 +298,95 @@ def snapshot_diff(a, b):
 
 
 def graph_snapshot(g):
-    return ([(repr(v), sorted(d.items())) for v, d in g.nodes(data=True)],
-            [(repr(a), repr(b), sorted(d.items())) for a, b, d in g.edges(data=True)])
+    """deep (values serialised) snapshot: class, graph attributes, nodes in insertion order with their data,
+    edges in iteration order with their data"""
+    fz = lambda d: json.dumps(d, sort_keys=True, default=str)
+    return (type(g).__name__, fz(g.graph), [(repr(v), fz(d)) for v, d in g.nodes(data=True)],
+            [(repr(a), repr(b), fz(d)) for a, b, d in g.edges(data=True)])
+
+
+class DeviceGraph(nx.Graph):
+    """a user-defined subclass of networkx.Graph (family F: the same graph in another representation)"""
+    vendor = "harness"
+
+
+GRAPH_CLASSES = {"Graph": nx.Graph, "Sub": DeviceGraph, "DiGraph": nx.DiGraph}
 
 
 def build_graph(spec):
-    g = nx.Graph()
-    g.add_nodes_from(spec["nodes"])
-    g.add_edges_from(tuple(e) for e in spec["edges"])
+    """spec["gattr"] (optional, family F) = REPRESENTATION of the same connectivity graph: class (nx.Graph, a
+    user subclass, a symmetric nx.DiGraph), node insertion order, edge insertion order / orientation, edge
+    attributes (`weight` and others), node attributes, graph attributes.  The mathematical graph (node set,
+    edge set) is spec["nodes"] / spec["edges"] in every case."""
+    ga = spec.get("gattr")
+    if not ga:
+        g = nx.Graph()
+        g.add_nodes_from(spec["nodes"])
+        g.add_edges_from(tuple(e) for e in spec["edges"])
+        return g
+    g = GRAPH_CLASSES[ga.get("cls", "Graph")]()
+    g.graph.update(ga.get("graph", {}))
+    nodes, edges = spec["nodes"], spec["edges"]
+    nattr = ga.get("nattr") or [{}] * len(nodes)
+    eattr = ga.get("eattr") or [{}] * len(edges)
+    flip = ga.get("flip") or [False] * len(edges)
+    for i in ga.get("node_order") or range(len(nodes)):
+        g.add_node(nodes[i], **nattr[i])
+    for j in ga.get("edge_order") or range(len(edges)):
+        a, b = edges[j]
+        if flip[j]:
+            a, b = b, a
+        g.add_edge(a, b, **eattr[j])
+        if ga.get("cls") == "DiGraph":
+            g.add_edge(b, a, **eattr[j])
     return g
+
+
+WEIGHT_PROFILES = ("none", "half", "quarters", "two", "three", "one", "rand", "partial")
+WEIGHT_VALUES = (0.25, 0.5, 0.75, 1, 2, 3, 1.0, 2.0)
+
+
+def graph_representation(spec, rng, profile=None, cls=None):
+    """a random representation of spec's graph: the weights are chosen so that weighted and unweighted distances
+    differ (0.5+0.5 and 0.25+0.75 make NON-adjacent nodes sit at weighted distance exactly 1; 2 / 3 put adjacent
+    nodes at a distance != 1)"""
+    ne, nn = len(spec["edges"]), len(spec["nodes"])
+    profile = profile or rng.choice(WEIGHT_PROFILES)
+    eattr = [{} for _ in range(ne)]
+    for j in range(ne):
+        w = {"none": None, "half": 0.5, "quarters": (0.25, 0.75)[j % 2], "two": 2, "three": 3.0, "one": 1,
+             "rand": rng.choice(WEIGHT_VALUES), "partial": rng.choice((None, 0.5, 0.5, 0.25, 0.75))}[profile]
+        if w is not None:
+            eattr[j]["weight"] = w
+        for name, val in (("length", rng.choice((0.5, 1, 2.5))), ("fidelity", 0.99), ("distance", rng.choice((0, 1, 7))),
+                          ("cost", 0.5), ("name", f"coupler{j}"), ("layer", j), ("qubits", [j, j + 1])):
+            if rng.random() < 0.2:
+                eattr[j][name] = val
+    nattr = [{} for _ in range(nn)]
+    for i in range(nn):
+        for name, val in (("weight", rng.choice((0.5, 2))), ("layer", rng.randrange(3)), ("pos", [i, -i]), ("t1", 12.5 + i),
+                          ("name", f"Q{i}"), ("qubits", [i])):
+            if rng.random() < 0.2:
+                nattr[i][name] = val
+    if cls is None:
+        r = rng.random()
+        cls = "Graph" if r < 0.65 else ("Sub" if r < 0.88 else "DiGraph")
+    if spec["router"][0] == "StarConnectivityRouter" and cls == "DiGraph":
+        cls = "Sub"          # the star router counts degrees: a symmetric DiGraph is not a star for it
+    return {"cls": cls, "profile": profile, "graph": rng.choice(({}, {"name": "device"}, {"weight": 0.5, "layer": 1})),
+            "node_order": rng.sample(range(nn), nn), "edge_order": rng.sample(range(ne), ne),
+            "flip": [rng.random() < 0.5 for _ in range(ne)], "eattr": eattr, "nattr": nattr}
+
+
+def decorate(specs, rng, p=0.65):
+    """family F applied to EVERY stream: each case's graph is handed over in a random representation with
+    probability p (the spec-level checks do not change: executability is about the EDGES of the user's graph)"""
+    k = 0
+    for sp in specs:
+        if "gattr" not in sp and rng.random() < p:
+            sp["gattr"] = graph_representation(sp, rng)
+            k += 1
+    return k
 
 
 def build_router(spec, graph):
@@ -442,6 +528,16 @@ class Tracer:
         return [e[1:] for e in self.events if e[0] == id(circuit_map)]
 
 
+TIMEOUTS = [0]      # router calls that hit the time limit in this process: after 3 of them the limit drops to 2 s, after
+                    # 10 to 0.5 s, after 30 to 0.15 s (a changed router that loops on a whole family of inputs must not
+                    # stall the check; a normal call on <= 8 qubits takes milliseconds)
+
+
+def _time_limit(timeout):
+    k = TIMEOUTS[0]
+    return timeout if k < 3 else min(timeout, 2.0 if k < 10 else (0.5 if k < 30 else 0.15))
+
+
 def run_router(spec, timeout=20.0, router=None, reassign=True):
     """returns dict with routed circuit, final layout, trace, initial blocks (None for star).
     router = an existing router object to REUSE: its connectivity is (re)assigned before the call,
@@ -474,10 +570,11 @@ def run_router(spec, timeout=20.0, router=None, reassign=True):
     try:
         with Tracer() as tr:
             try:
-                routed, layout = with_timeout(timeout, router, circuit)
+                routed, layout = with_timeout(_time_limit(timeout), router, circuit)
                 info["routed"], info["layout"] = routed, layout
             except RouterTimeout:
                 info["timeout"] = True
+                TIMEOUTS[0] += 1
             except Exception as e:  # noqa
                 info["error"] = f"{type(e).__name__}: {e}"
         if "cm" in captured:
@@ -566,12 +663,24 @@ def spec_checks(spec, info):
                             f"{g.name} on positions {g.qubits} = nodes ({a!r},{b!r}) which is not an edge",
                             {"gate": g.name, "positions": list(g.qubits), "nodes": [str(a), str(b)]}))
                 break
+    # block decomposition judged by the operator: the blocks in order implement the (measurement-detached) input
+    if info.get("block_objs") is not None and info.get("q_objs") is not None and n <= 6:
+        try:
+            flat = [g for (_, _, gl) in info["block_objs"] for g in gl]
+            UB, UQ = exact_operator(flat, n), exact_operator(info["q_objs"], n)
+            if not (np.array_equal(UB, UQ) if (is_integral(UB) and is_integral(UQ)) else np.allclose(UB, UQ, atol=1e-9)) \
+                    and classify(spec) not in ("mid_multi_meas",):
+                bad.append(("blocks_operator", "the gates of block_decomposition(circuit), in block order, do not implement the circuit's "
+                            "operator: [" + "; ".join(f"{b_[0]}:" + ",".join(f"{g.name}{tuple(g.qubits)}" for g in b_[2]) for b_ in info["block_objs"])
+                            + "] vs queue [" + ", ".join(f"{g.name}{tuple(g.qubits)}" for g in info["q_objs"]) + "]", {}))
+        except OverflowError:
+            pass
     # (c) operator  out = P . in  (exact)
     try:
         U = exact_operator(circuit.queue, n)
         V = exact_operator(routed.queue, n)
         exact = is_integral(U) and is_integral(V)
-        if not exact and classify(spec) != "meas_basis":
+        if not exact and classify(spec) != "meas_basis" and not is_approx(spec):
             bad.append((f"inexact:{rname}", "simulation left the integers (harness problem)", {}))
         elif (not np.array_equal(V, permuted(U, l2p, n))) if exact else (not np.allclose(V, permuted(U, l2p, n), atol=1e-9)):
             key = f"{classify(spec) or 'operator'}:{rname}"
@@ -587,7 +696,7 @@ def spec_checks(spec, info):
             psi = (rs.randint(-3, 4, 2 ** n) + 1j * rs.randint(-3, 4, 2 ** n)).astype(complex)
             got = np.asarray(NumpyBackend().execute_circuit(routed, initial_state=psi.copy()).state())
             mine = exact_operator(routed.queue, n).reshape(2 ** n, 2 ** n) @ psi
-            if not np.array_equal(got, mine):
+            if not (np.allclose(got, mine, atol=1e-9) if is_approx(spec) else np.array_equal(got, mine)):
                 bad.append((f"backend_vs_harness:{rname}", "real numpy backend and the harness simulator disagree on the routed circuit", {}))
             info["backend_checked"] = True
     except OverflowError:
@@ -866,6 +975,107 @@ def defect_cases(rng):
         out.append(("nontrailing", mk_spec(line3, [0, 1, 2], gs, r)))
     gs = [["M", [0], {"register_name": "a"}], ["CZ", [1, 2], {}], ["M", [1], {"register_name": "b"}]]
     out.append(("nontrailing", mk_spec(star, [0, 1, 2, 3, 4], gs, ["StarConnectivityRouter", {}])))
+    return out
+
+
+# ------------------------------------------------------------------ round 5: block-order corpus, weighted graphs
+CTRL_TYPES = (("CNOT", {}), ("CZ", {}), ("CY", {}), ("CRX", {"theta": 0.7}), ("CRY", {"theta": 1.1}), ("CRZ", {"theta": -0.4}),
+              ("CU1", {"theta": 0.9}), ("SWAP", {}), ("iSWAP", {}), ("FSWAP", {}), ("RXX", {"theta": 0.3}))
+
+
+def block_triples(tier):
+    """deterministic corpus: three two-qubit blocks A, B, C with A and C on the same pair and B sharing exactly ONE
+    qubit with it (as control or as target of A / B / C, all orientations), optionally followed by a one-qubit gate
+    on the shared qubit: every answer to 'may C be fused with A across B?' other than 'no' breaks the operator for
+    some member.  Graphs: the triangle (no SWAP needed: pure block order) and the line; routers alternate."""
+    types = CTRL_TYPES if tier != "quick" else CTRL_TYPES[:5] + CTRL_TYPES[7:9]
+    out = []
+    k = 0
+    tri, line = nx.complete_graph(3), nx.path_graph(3)
+    asym1 = [[[0, 0], [0, 1]], [[1, 0], [0, 0]]]        # one-qubit gate [[0, i],[1, 0]] (not symmetric, not diagonal)
+    for (ta, ka), (tb, kb), (tc, kc) in itertools.product(types, repeat=3):
+        # orientations cycle deterministically so that every (type, type) pair meets every orientation pair
+        for rep in range(2):
+            o = (k * 5 + rep * 3) % 16
+            oa, ob, oc, s = o & 1, (o >> 1) & 1, (o >> 2) & 1, (o >> 3) & 1
+            k += 1
+            pa = [0, 1][::-1] if oa else [0, 1]
+            pb = [s, 2][::-1] if ob else [s, 2]
+            pc = [0, 1][::-1] if oc else [0, 1]
+            gs = [[ta, pa, dict(ka)], [tb, pb, dict(kb)], [tc, pc, dict(kc)]]
+            if k % 3 == 0:
+                gs.append(["U", [s], {"m": asym1}])
+            if k % 7 == 0:
+                gs.insert(0, ["U", [2], {"m": asym1}])
+            g = tri if k % 2 else line
+            router = ["ShortestPaths", {"seed": k % 5}] if k % 4 < 2 else ["Sabre", {"seed": k % 5, "lookahead": k % 3}]
+            out.append(("triple", mk_spec(g, [0, 1, 2], gs, router)))
+    # the orientation-complete core: control-sharing / target-sharing with the asymmetric gates
+    core = (("CNOT", {}), ("CRX", {"theta": 0.7}), ("CZ", {}), ("SWAP", {}))
+    for (ta, ka), (tb, kb), (tc, kc) in itertools.product(core[:3], core[:3], core):
+        for o in range(16):
+            oa, ob, oc, s = o & 1, (o >> 1) & 1, (o >> 2) & 1, (o >> 3) & 1
+            gs = [[ta, [1, 0] if oa else [0, 1], dict(ka)], [tb, [2, s] if ob else [s, 2], dict(kb)],
+                  [tc, [1, 0] if oc else [0, 1], dict(kc)]]
+            k += 1
+            router = ["ShortestPaths", {"seed": 0}] if k % 2 else ["Sabre", {"seed": 0}]
+            out.append(("triple", mk_spec(tri if o % 2 else line, [0, 1, 2], gs, router)))
+    return out
+
+
+def ctrl_cases(tier, rng):
+    """random circuits made (almost) only of controlled gates in random orientation, few qubits: blocks that share
+    only a control / only a target are frequent"""
+    out = []
+    for k in range(150 if tier == "quick" else 600):
+        n = rng.randint(3, 5)
+        g0 = rng.choice([nx.path_graph(n), nx.cycle_graph(n), nx.star_graph(n - 1), nx.complete_graph(n)])
+        g = label_variants(g0, rng, rng.choice(["id", "perm", "str", "mixed"]))
+        wn = list(g.nodes())
+        rng.shuffle(wn)
+        gs = []
+        for _ in range(rng.randint(3, 9)):
+            r = rng.random()
+            if r < 0.8:
+                t, kw = rng.choice(CTRL_TYPES[:7]) if rng.random() < 0.8 else rng.choice(CTRL_TYPES)
+                gs.append([t, rng.sample(range(n), 2), dict(kw)])
+            elif r < 0.9:
+                gs.append(["U", [rng.randrange(n)], {"m": rand_gi_matrix(rng, 1)}])
+            else:
+                gs.append([rng.choice(NAMED1), [rng.randrange(n)], {}])
+        router = ["Sabre", sabre_kw(rng)] if k % 2 else ["ShortestPaths", {"seed": rng.randrange(1000)}]
+        out.append(("ctrl", mk_spec(g, wn, gs, router)))
+    return out
+
+
+def weighted_cases(tier, rng):
+    """family F, deterministic part: every weight profile on lines / rings / stars / grids / a tree, as nx.Graph, a
+    user subclass and a symmetric DiGraph, integer / string / mixed labels, wire names in a CYCLIC (non-involutive)
+    order, far gates that need SWAPs; all three routers"""
+    out = []
+    shapes = [("line5", nx.path_graph(5)), ("ring6", nx.cycle_graph(6)), ("star5", nx.star_graph(4)),
+              ("grid2x3", nx.convert_node_labels_to_integers(nx.grid_2d_graph(2, 3))), ("line4", nx.path_graph(4)),
+              ("tree6", nx.Graph([(0, 1), (1, 2), (1, 3), (3, 4), (3, 5)]))]
+    k = 0
+    for nm, g0 in shapes:
+        n = g0.number_of_nodes()
+        for profile in WEIGHT_PROFILES:
+            for how in ("id", "str", "mixed"):
+                k += 1
+                if tier == "quick" and how != "id" and (k % 2):
+                    continue
+                g = label_variants(g0, rng, how)
+                nodes = list(g.nodes())
+                wn = nodes[1:] + nodes[:1] if k % 2 else nodes          # cyclic shift: not an involution for n >= 3
+                far = [["CNOT", [0, n - 1], {}], ["CZ", [n - 1, n // 2], {}], ["U", [0, n // 2], {"m": rand_gi_matrix(rng, 2)}],
+                       ["CNOT", [1, n - 1], {}], ["CY", [n - 2, 0], {}], ["M", [n - 1, 0], {"register_name": "out"}]]
+                routers = [["Sabre", {"seed": k % 7, "lookahead": k % 3}], ["ShortestPaths", {"seed": k % 7}]]
+                if nm == "star5":
+                    routers.append(["StarConnectivityRouter", {}])
+                for router in routers:
+                    sp = mk_spec(g, wn, far, router)
+                    sp["gattr"] = graph_representation(sp, rng, profile=profile, cls=("Graph", "Sub", "DiGraph", "Graph")[k % 4])
+                    out.append(("weighted:" + nm, sp))
     return out
 
 
@@ -1163,7 +1373,8 @@ def process(run, cases, label, found, stats, timeout, infos=None, hist_of=None):
             stats["swaps"] = stats.get("swaps", 0) + max(nsw, 0)
             if info.get("backend_checked"):
                 stats["routed_circuits_also_run_on_real_backend"] = stats.get("routed_circuits_also_run_on_real_backend", 0) + 1
-        run.case([spec["nodes"], spec["edges"], spec["wire_names"], spec["gates"], spec["router"]] + ([spec["attr"]] if spec.get("attr") else []), nontrivial)
+        run.case([spec["nodes"], spec["edges"], spec["wire_names"], spec["gates"], spec["router"]] + ([spec["attr"]] if spec.get("attr") else [])
+                 + ([spec["gattr"]] if spec.get("gattr") else []), nontrivial)
         if len(run.samples) < 4 and nontrivial and len(spec["gates"]) <= 8:
             run.sample({"graph": nm, "spec": spec, "final_layout": str(info.get("layout")),
                         "routed": [[g.name, list(g.qubits)] for g in info["routed"].queue]})
@@ -1330,11 +1541,14 @@ def main(run):
                                             "routing_ok_matrices is routing_ok at this instance")
     found, stats = {}, {}
     t_lim = 20.0
+    rngF = random.Random(run.seed * 1021 + 11)      # family F: graph representations (separate stream of random choices)
     cases = main_cases(run.tier, rng)
+    stats["graphs_in_another_representation"] = decorate([sp for _, sp in cases], rngF)
     pend = process(run, cases, "main", found, stats, t_lim)
     coq_batches(run, pend, "main", found, stats)
     hcases, infos, hist_of = [], {}, {}
     for hspec in router_histories(run.tier, rng) + noreassign_histories(run.tier, rng):
+        stats["graphs_in_another_representation"] += decorate(hspec["calls"], rngF)
         for i, (sp, info) in enumerate(run_router_history(hspec, timeout=t_lim)):
             if not hspec.get("reassign", True):
                 stats["calls_on_a_reused_router_not_reassigned"] = stats.get("calls_on_a_reused_router_not_reassigned", 0) + 1
@@ -1349,14 +1563,25 @@ def main(run):
     pend = process(run, hcases, "hist", found, stats, t_lim, infos=infos, hist_of=hist_of)
     coq_batches(run, pend, "hist", found, stats)
     acases = attr_cases(run.tier, rng)
+    stats["graphs_in_another_representation"] += decorate([sp for _, sp in acases], rngF)
     ainfos = {id(sp): run_router(sp, timeout=t_lim) for _, sp in acases}
     stats["attribute_history_cases"] = len(acases)
     pend = process(run, acases, "attrs", found, stats, t_lim, infos=ainfos)
     coq_batches(run, pend, "attrs", found, stats)
     attr_correspondence(run, [(sp, ainfos[id(sp)]) for _, sp in acases], found, stats)
     dcases = defect_cases(rng)
+    stats["graphs_in_another_representation"] = stats.get("graphs_in_another_representation", 0) + decorate([sp for _, sp in dcases], rngF, 0.5)
     pend = process(run, dcases, "defects", found, stats, t_lim)
     coq_batches(run, pend, "defects", found, stats)
+    # round 5: block-order corpus (family D), controlled-gate circuits, weighted / attributed graphs (family F)
+    tcases = block_triples(run.tier)
+    stats["block_triples"] = len(tcases)
+    ccases = ctrl_cases(run.tier, random.Random(run.seed * 1009 + 5))
+    wcases = weighted_cases(run.tier, random.Random(run.seed * 1013 + 7))
+    stats["weighted_graph_corpus"] = len(wcases)
+    stats["graphs_in_another_representation"] += len(wcases) + decorate([sp for _, sp in tcases + ccases], rngF, 0.4)
+    pend = process(run, tcases + ccases + wcases, "r5", found, stats, t_lim)
+    coq_batches(run, pend, "r5", found, stats)
     malformed(run, found, stats)
     for key, (what, rp) in sorted(found.items()):
         concrete = not rp.get("model_only", False)
